@@ -1,5 +1,8 @@
+import ast
+
 from .. import schema as S
 from ..effects import Effects, check_pure
+from ..model import loc
 from ..report import Result
 from ._containers import KIND_RULES
 
@@ -67,6 +70,26 @@ def run(ctx):
     eff = Effects(ctx)
     with res.guard("check_purectx, eff, res, save.save_hypergraph, rootshypergraph,"):
         check_pure(ctx, eff, res, "save.save_hypergraph", roots=("hypergraph",))
+    # what the loader parsed is what it builds from: a helper of load.py that is called for its side effects only (a statement call:
+    # diagnostics, validation, statistics) and is handed the parsed record lists leaves those records as they are - a `members.sort()`
+    # "for display" on the [source, target] pair of a directed record swaps the two sides before add_edge sees them
+    with res.guard("E-PURE of the loader's statement-call helpers"):
+        res.rules["E-PURE"] = res.rules.get("E-PURE", "") + "; helpers that load_hypergraph calls as statements leave the parsed records unchanged"
+        lf = ctx.require("load.load_hypergraph")
+        units = [lf] + [g for g in ctx.prog.functions.values() if g.module is lf.module and g is not lf and any(c_ is g for n_ in ast.walk(lf.node) if isinstance(n_, ast.Call) for c_ in ctx.callees(lf, n_))]
+        n_st = 0
+        for u in units:
+            for st in [x for x in ast.walk(u.node) if isinstance(x, ast.Expr) and isinstance(x.value, ast.Call) and isinstance(x.value.func, ast.Name)]:
+                for callee in ctx.callees(u, st.value):
+                    if callee.module is not lf.module:
+                        continue
+                    pn = [a.arg for a in callee.params]
+                    roots = tuple(pn[i] for i, a in enumerate(st.value.args) if i < len(pn) and isinstance(a, ast.Name) and any(isinstance(d, ast.Assign) and any(isinstance(t, ast.Name) and t.id == a.id for t in d.targets) and isinstance(d.value, (ast.List, ast.ListComp)) for d in ast.walk(u.node)))
+                    if roots:
+                        n_st += 1
+                        check_pure(ctx, eff, res, callee, roots=roots)
+        if n_st == 0:
+            res.ok("E-PURE", lf.short, "no statement-call helper is handed the parsed records", "load-helpers", loc(lf, lf.node))
     with res.guard("check_purectx, eff, res, save._save_pickle, rootsobj,"):
         check_pure(ctx, eff, res, "save._save_pickle", roots=("obj",))
     with res.guard("check_purectx, eff, res, hif.write_hif, rootsH,"):
